@@ -16,7 +16,7 @@ Program (JSON, one line):  {"prog": [stmt...], "sched": [int...], "wrap": bool}
                            must be what it was
         | ["hold", b]      the scope object of the (async/sync) block b is constructed *here* (`cm = ctx.scope(...)`) and only
                            entered where the block statement stands – later in the same task, possibly in another context
- disp ::= [d, enterScript, exitScript, [[ty, tag]...]]      script ::= "ok" | "raise" | ["wait", g] | "swallow"
+ disp ::= [d, enterScript, exitScript, [[ty, tag]...]]      script ::= "ok" | "raise" | ["wait", g] | "swallow" | "reraise"
           ("swallow": exit script only – `__aexit__` returns True, asking to suppress the body's exception; a scope's
           disposables have no such say: the exception still reaches the caller)
           an entry [-1, 0] among the yields = the iterable handed back by __aenter__ raises at that point of its iteration
@@ -147,8 +147,8 @@ def gen_program(rng, depth, ids, allow_spawn=True, p_disp=0.5, p_raise=0.07, p_f
                     if rng.random() < 0.06:
                         ys.insert(rng.randint(0, len(ys)), [-1, 0])   # the yielded iterable raises part-way
                     ex_script = script()
-                    if ex_script == "ok" and rng.random() < 0.08:
-                        ex_script = "swallow"
+                    if ex_script == "ok" and rng.random() < 0.16:
+                        ex_script = rng.choice(["swallow", "reraise"])
                     disps.append([ids["disp"], script(), ex_script, ys])
             stmts.append(["block", kind, b, sup, disps, gen_program(rng, depth - 1, ids, allow_spawn, p_disp, p_raise, p_fault)])
     return stmts
@@ -369,6 +369,12 @@ class Run:
 
             async def __aexit__(s, et, ev, tb):
                 run.ev(t, "dex", did, out_name(ev) if et is not None else "None")
+                if ex == "reraise" and ev is not None and not isinstance(ev, asyncio.CancelledError):
+                    # (a re-raised CancelledError would come back from `gather` as a new object: asyncio's business)
+                    # a class-based manager that re-raises what it was handed: not a cleanup failure – the body's exception
+                    # goes on to the caller as that object (several such disposables must not turn it into a group of itself)
+                    run.ev(t, "dexed", did, "ok")
+                    raise ev
                 try:
                     if ex == "raise":
                         raise Boom(f"dex{did}")
